@@ -17,7 +17,7 @@ package chaingersender
 //@   requires x != nil
 //@   modifies nothing
 //@   ensures result == ite(bigval(x) < 0, 0 - 1, ite(bigval(x) > 0, 1, 0))
-//@ func (c *EVMChainGERSender) IsGERInjected
+//@ func (c *EVMChainGERSender) IsGERInjected (c, ger)
 //@   props C15
 //@   requires c != nil && c.l2GERManager != nil
 //@   modifies nothing
@@ -32,7 +32,7 @@ package chaingersender
 //@   modifies nothing
 //@ interface github.com/agglayer/aggkit/aggoracle/types.EthTxManager.Result (self, ctx, id)
 //@   modifies nothing
-//@ func (c *EVMChainGERSender) InjectGER
+//@ func (c *EVMChainGERSender) InjectGER (c, ctx, ger)
 //@   props C15
 //@   requires c != nil && c.l2GERManagerAbi != nil && c.ethTxMan != nil && c.logger != nil
 //@   modifies heap
